@@ -390,14 +390,14 @@ class Scan(Generic[Carry, Y], GenerativeFunction[tuple[Carry, Y]]):
         scores = jax.vmap(lambda tr: tr.get_score())(new_inner_trace)
 
         # We don't actually know if the index which was updated was the last one.
-        # Therefore, we need to provide a where selection
-        # between the carry from index, and the next slice --
+        # If it was, the final carry is the carry out of the edited slice. Otherwise the
+        # carry out of the next slice is unchanged (asserted above), hence so is every
+        # later iteration, and the final carry is the previous one.
         carry_out = Diff.tree_primal(carry_retdiff)
-        carry_out_ = Diff.tree_primal(retdiff[0])
         carried_out = jtu.tree_map(
-            lambda v, v_: jnp.where(idx < max_length, v_, v),
+            lambda v, v_: jnp.where(idx + 1 < max_length, v_, v),
             carry_out,
-            carry_out_,
+            old_carried_out,
         )
 
         return (
